@@ -162,6 +162,22 @@ impl<'a, H: HashChain> InMemoryHssSignature<'a, H> {
 
         let signature = InMemoryLmsSignature::<'a, H>::new(&data[index..])?;
 
+        // RFC 8554, Algorithm 6a: the signature must have exactly the expected length
+        let signature_length = lms_signature_length(
+            signature
+                .lmots_signature
+                .lmots_parameter
+                .get_hash_function_output_size(),
+            signature
+                .lmots_signature
+                .lmots_parameter
+                .get_num_winternitz_chains() as usize,
+            signature.lms_parameter.get_tree_height() as usize,
+        );
+        if data.len() - index != signature_length {
+            return None;
+        }
+
         Some(Self {
             level,
             signed_public_keys,
